@@ -162,6 +162,17 @@ def exec_accept(case):
         if s.missing:
             out.fail('pipeline/algorithm-missing-from-task-tree',
                      f'{s.missing}')
+        else:
+            # "can be turned into a task graph": the graph the scheduler got
+            # is the declared one (the oracle of C09)
+            from .c09 import compare
+
+            sub = core.Outcome()
+            compare(sub, spec, s.ref, sched.ae)
+            if sub.failures:
+                f = sub.failures[0]
+                out.fail('pipeline/task-graph-differs-from-declarations',
+                         f'{f.bucket}: {f.detail}')
         for e in s.errors:
             if e[0] == 'exception':
                 out.fail('pipeline/swallowed-exception', str(e))
